@@ -182,6 +182,22 @@ func (g *fgen) word() []byte {
 	return b
 }
 
+// degradedShapes: every kind of metadata answer from which GetTokenInfo cannot produce token info (sym / name are the hex strings
+// the healthy contract would return, ok the healthy answer).
+func degradedShapes(sym, name string, dec uint8, ok string) []string {
+	return []string{
+		"e", "", "SB" + sym, ok + "|SU1", "SB" + sym + "|SB" + name,
+		fmt.Sprintf("F|SB%s|SU%d", name, dec), fmt.Sprintf("SB%s|F|SU%d", sym, dec), fmt.Sprintf("SB%s|SB%s|F", sym, name),
+		"F|F|F", fmt.Sprintf("SB%s|N|SU%d", sym, dec), fmt.Sprintf("N|SB%s|SU%d", name, dec), fmt.Sprintf("SB%s|SB%s|N", sym, name),
+		fmt.Sprintf("S|SB%s|SU%d", name, dec), fmt.Sprintf("SB%s|S|SU%d", sym, dec), fmt.Sprintf("SB%s|SB%s|S", sym, name),
+		fmt.Sprintf("SB%s/B00|SB%s|SU%d", sym, name, dec), fmt.Sprintf("SB%s|SB%s/B00|SU%d", sym, name, dec),
+		fmt.Sprintf("SB%s|SB%s|SU%d/U1", sym, name, dec),
+		fmt.Sprintf("SU1|SB%s|SU%d", name, dec), fmt.Sprintf("SB%s|SU1|SU%d", sym, dec), fmt.Sprintf("SB%s|SB%s|SB01", sym, name),
+		fmt.Sprintf("SB%s|SB%s|SZ", sym, name), fmt.Sprintf("SBzz|SB%s|SU%d", name, dec), fmt.Sprintf("SB%s|SB0|SU%d", sym, dec),
+		fmt.Sprintf("SB%s|SB%s|SU256", sym, name), fmt.Sprintf("SB%s|SB%s|SU1x", sym, name),
+	}
+}
+
 // newToken makes a token whose contract answers consistently (shape S<sym>|S<name>|S<U dec>), possibly degraded.
 func (g *fgen) newToken(degrade bool) *tokenTruth {
 	t := &tokenTruth{token: g.bytesN(32), decimals: uint8(g.pick(0, 6, 8, 18, 254, g.r.Intn(255))), symbol: g.word(), name: g.word()}
@@ -202,17 +218,7 @@ func (g *fgen) newToken(degrade bool) *tokenTruth {
 	ok := fmt.Sprintf("SB%s|SB%s|SU%d", sym, name, t.decimals)
 	t.shape = ok
 	if degrade {
-		shapes := []string{
-			"e", "", "SB" + sym, ok + "|SU1", "SB" + sym + "|SB" + name,
-			fmt.Sprintf("F|SB%s|SU%d", name, t.decimals), fmt.Sprintf("SB%s|F|SU%d", sym, t.decimals), fmt.Sprintf("SB%s|SB%s|F", sym, name),
-			"F|F|F", fmt.Sprintf("SB%s|N|SU%d", sym, t.decimals), fmt.Sprintf("N|SB%s|SU%d", name, t.decimals), fmt.Sprintf("SB%s|SB%s|N", sym, name),
-			fmt.Sprintf("S|SB%s|SU%d", name, t.decimals), fmt.Sprintf("SB%s|S|SU%d", sym, t.decimals), fmt.Sprintf("SB%s|SB%s|S", sym, name),
-			fmt.Sprintf("SB%s/B00|SB%s|SU%d", sym, name, t.decimals), fmt.Sprintf("SB%s|SB%s/B00|SU%d", sym, name, t.decimals),
-			fmt.Sprintf("SB%s|SB%s|SU%d/U1", sym, name, t.decimals),
-			fmt.Sprintf("SU1|SB%s|SU%d", name, t.decimals), fmt.Sprintf("SB%s|SU1|SU%d", sym, t.decimals), fmt.Sprintf("SB%s|SB%s|SB01", sym, name),
-			fmt.Sprintf("SB%s|SB%s|SZ", sym, name), fmt.Sprintf("SBzz|SB%s|SU%d", name, t.decimals), fmt.Sprintf("SB%s|SB0|SU%d", sym, t.decimals),
-			fmt.Sprintf("SB%s|SB%s|SU256", sym, name), fmt.Sprintf("SB%s|SB%s|SU1x", sym, name),
-		}
+		shapes := degradedShapes(sym, name, t.decimals, ok)
 		t.shape = shapes[g.r.Intn(len(shapes))]
 	}
 	return t
@@ -261,13 +267,13 @@ func (g *fgen) attestFor(t *tokenTruth, how string) []byte {
 }
 
 type fcfg struct {
-	mainnet  bool
-	bridge   []byte
-	govId    []byte
-	gov      string
-	tokens   []*tokenTruth
-	foreign  []string // other contract addresses
-	usedTi   map[string]bool
+	mainnet bool
+	bridge  []byte
+	govId   []byte
+	gov     string
+	tokens  []*tokenTruth
+	foreign []string // other contract addresses
+	usedTi  map[string]bool
 }
 
 func (g *fgen) newCfg() *fcfg {
@@ -430,34 +436,38 @@ type fblock struct {
 }
 
 type watchRun struct {
-	g      *fgen
-	id     string
-	c      *fcfg
-	w      *Watcher
-	cancel context.CancelFunc
-	errC   chan error
-	evA    chan []*UnconfirmedEvent // fetchEvents -> harness
-	evB    chan []*UnconfirmedEvent // harness -> handleEvents
-	hC     chan int32 // harness -> handleEvents
-	hA     chan int32 // real fetchHeight -> harness (cases with viaFH)
-	viaFH  bool       // heights come from the real fetchHeight polling the fake node's chain-info
-	hparked    bool   // a chain-info request of the height poller is waiting at the gate
+	g          *fgen
+	id         string
+	c          *fcfg
+	w          *Watcher
+	cancel     context.CancelFunc
+	errC       chan error
+	evA        chan []*UnconfirmedEvent // fetchEvents -> harness
+	evB        chan []*UnconfirmedEvent // harness -> handleEvents
+	hC         chan int32               // harness -> handleEvents
+	hA         chan int32               // real fetchHeight -> harness (cases with viaFH)
+	viaFH      bool                     // heights come from the real fetchHeight polling the fake node's chain-info
+	hparked    bool                     // a chain-info request of the height poller is waiting at the gate
 	heightDone chan struct{}
 	dip        bool // scenario: the node once reports a height far ahead, then falls back (reorg / resync / lagging node)
 	anchored   bool // dip scenario: an event in a block with a future timestamp keeps the poller busy meanwhile
 	spiked     bool
-	msgC   chan *common.MessagePublication
-	base   int64 // wall clock (ms) at case start; block timestamps keep >= 10 minutes clear of every floor
-	blocks []*fblock
-	byId   map[string]*evSpec // UnconfirmedEvent identity -> spec (fetch path: by position)
-	exited bool
-	fetch  bool
-	parked bool // a count request of the fetch loop is waiting at the gate
-	nextId int
+	msgC       chan *common.MessagePublication
+	base       int64 // wall clock (ms) at case start; block timestamps keep >= 10 minutes clear of every floor
+	blocks     []*fblock
+	byId       map[string]*evSpec // UnconfirmedEvent identity -> spec (fetch path: by position)
+	exited     bool
+	fetch      bool
+	parked     bool // a count request of the fetch loop is waiting at the gate
+	nextId     int
 	fetchDone  chan struct{}
 	handleDone chan struct{}
 	panicC     chan string // a watcher goroutine panicked (in production: the guardian process dies)
 	panicked   bool
+	reobs      bool // this life also runs the real handleObsvRequest loop (same Watcher, same client), like Watcher.Run does
+	obsC       chan *gossipv1.ObservationRequest
+	reobsDone  chan struct{}
+	lives      int // incarnations started so far (restart scenarios: the loops are started again on the same Watcher value)
 }
 
 func (g *fgen) newWatchRun(kind string, fetch bool, viaFH bool) *watchRun {
@@ -469,11 +479,10 @@ func (g *fgen) newWatchRun(kind string, fetch bool, viaFH bool) *watchRun {
 	var bridge Byte32
 	copy(bridge[:], c.bridge)
 	r := &watchRun{g: g, id: g.id(kind), c: c, fetch: fetch, viaFH: viaFH, base: time.Now().UnixMilli(),
-		errC: make(chan error), evA: make(chan []*UnconfirmedEvent), evB: make(chan []*UnconfirmedEvent), hC: make(chan int32), hA: make(chan int32),
-		msgC: make(chan *common.MessagePublication, 4096)}
+		msgC: make(chan *common.MessagePublication, 4096), obsC: make(chan *gossipv1.ObservationRequest)}
 	r.w = &Watcher{
 		url: n.srv.URL, governanceContractAddress: c.gov, tokenBridgeContractId: bridge,
-		chainIndex: &ChainIndex{FromGroup: n.group, ToGroup: n.group}, msgChan: r.msgC, obsvReqC: make(chan *gossipv1.ObservationRequest),
+		chainIndex: &ChainIndex{FromGroup: n.group, ToGroup: n.group}, msgChan: r.msgC, obsvReqC: r.obsC,
 		blockPollerEnabled: &atomic.Bool{}, pollIntervalMs: 1, client: NewClient(n.srv.URL, n.key, 10), isMainnet: c.mainnet,
 	}
 	return r
@@ -506,13 +515,20 @@ func (r *watchRun) barrier() bool {
 
 func (r *watchRun) en() string { return fb(r.w.blockPollerEnabled.Load()) }
 
-// start launches the real handleEvents (and, for fetch cases, the real fetchEvents whose first count request is answered count0).
-func (r *watchRun) start(count0 string) {
-	g, n := r.g, r.g.node
+// launch starts one incarnation of the watcher the way Watcher.Run does: fresh error / event / height channels and the real
+// loops on the SAME Watcher value (handleEvents; for fetch cases fetchEvents, whose first count request is answered count0;
+// fetchHeight when heights are polled; handleObsvRequest when the life serves re-observation requests).
+// Returns the ` reqs= exit= panic=` part of the line describing the start (fetch cases only).
+func (r *watchRun) launch(count0 string) string {
+	n := r.g.node
 	ctx, cancel := context.WithCancel(context.Background())
 	r.cancel = cancel
+	r.lives++
 	logger := zap.NewNop()
-	r.handleDone, r.fetchDone, r.panicC = make(chan struct{}), make(chan struct{}), make(chan string, 2)
+	r.errC, r.evA, r.evB = make(chan error), make(chan []*UnconfirmedEvent), make(chan []*UnconfirmedEvent)
+	r.hC, r.hA = make(chan int32), make(chan int32)
+	r.handleDone, r.fetchDone, r.panicC = make(chan struct{}), make(chan struct{}), make(chan string, 4)
+	r.exited, r.panicked, r.parked, r.hparked = false, false, false, false
 	go func() {
 		defer close(r.handleDone)
 		defer r.catch("handleEvents")
@@ -520,6 +536,16 @@ func (r *watchRun) start(count0 string) {
 	}()
 	if !r.fetch {
 		close(r.fetchDone)
+	}
+	r.reobsDone = make(chan struct{})
+	if r.reobs {
+		go func() {
+			defer close(r.reobsDone)
+			defer r.catch("handleObsvRequest")
+			r.w.handleObsvRequest(ctx, logger, r.w.client)
+		}()
+	} else {
+		close(r.reobsDone)
 	}
 	r.heightDone = make(chan struct{})
 	if r.viaFH {
@@ -534,40 +560,105 @@ func (r *watchRun) start(count0 string) {
 	} else {
 		close(r.heightDone)
 	}
-	line := fmt.Sprintf("winit %s mainnet=%s bridge=%s gov=%s fetch=%s fh=%s ti=%s", r.id, fb(r.c.mainnet), hex.EncodeToString(r.c.bridge), r.c.gov, fb(r.fetch), fb(r.viaFH), r.c.renderTiAddr())
-	if r.fetch {
-		n.mu.Lock()
-		n.gated = true
-		switch count0 {
-		case "e":
-			n.errs["count"] = true
-		case "404":
-			n.count404 = true
-		}
-		n.mu.Unlock()
-		go func() {
-			defer close(r.fetchDone)
-			defer r.catch("fetchEvents")
-			r.w.fetchEvents(ctx, logger, r.w.client, r.errC, r.evA)
-		}()
-		<-n.arrive
-		n.release <- struct{}{}
-		// the loop either reports an error or comes back with the first tick's count request
-		select {
-		case <-r.errC:
-			r.exited = true
-		case <-r.panicC:
-			r.exited, r.panicked = true, true
-		case <-n.arrive:
-			r.parked = true
-		}
-		n.mu.Lock()
-		delete(n.errs, "count")
-		n.count404 = false
-		n.mu.Unlock()
-		line += fmt.Sprintf(" reqs=%s exit=%s panic=%s", fjoin(n.takeLog(), ","), fb(r.exited), fb(r.panicked))
+	if !r.fetch {
+		return ""
 	}
-	g.emit("%s", line)
+	n.mu.Lock()
+	n.gated = true
+	switch count0 {
+	case "e":
+		n.errs["count"] = true
+	case "404":
+		n.count404 = true
+	}
+	arrive, release := n.arrive, n.release
+	n.mu.Unlock()
+	go func() {
+		defer close(r.fetchDone)
+		defer r.catch("fetchEvents")
+		r.w.fetchEvents(ctx, logger, r.w.client, r.errC, r.evA)
+	}()
+	<-arrive
+	release <- struct{}{}
+	// the loop either reports an error or comes back with the first tick's count request
+	select {
+	case <-r.errC:
+		r.exited = true
+	case <-r.panicC:
+		r.exited, r.panicked = true, true
+	case <-arrive:
+		r.parked = true
+	}
+	n.mu.Lock()
+	delete(n.errs, "count")
+	n.count404 = false
+	n.mu.Unlock()
+	return fmt.Sprintf(" reqs=%s exit=%s panic=%s", fjoin(n.takeLog(), ","), fb(r.exited), fb(r.panicked))
+}
+
+// start: the first incarnation of this life.
+func (r *watchRun) start(count0 string) {
+	line := fmt.Sprintf("winit %s mainnet=%s bridge=%s gov=%s fetch=%s fh=%s ti=%s", r.id, fb(r.c.mainnet), hex.EncodeToString(r.c.bridge), r.c.gov, fb(r.fetch), fb(r.viaFH), r.c.renderTiAddr())
+	line += r.launch(count0)
+	r.g.emit("%s", line)
+}
+
+// halt ends the running incarnation the way the supervisor does when Run has returned (or when it restarts a healthy Run): the
+// context is cancelled; every loop is waited for. Nothing is released at the gates: a request still parked there is abandoned by
+// its (cancelled) client, and the node moves on to new gates with the next incarnation (newEpoch).
+func (r *watchRun) halt() {
+	r.cancel()
+	deadline := time.After(120 * time.Second)
+	hd, fd, ed, od := r.handleDone, r.fetchDone, r.heightDone, r.reobsDone
+	for hd != nil || fd != nil || ed != nil || od != nil {
+		select {
+		case <-hd:
+			hd = nil
+		case <-fd:
+			fd = nil
+		case <-ed:
+			ed = nil
+		case <-od:
+			od = nil
+		case <-r.errC:
+		case <-r.evA:
+		case <-r.hA:
+		case who := <-r.panicC:
+			_ = who
+			r.panicked = true
+		case <-deadline:
+			panic("verif harness: watcher goroutines did not stop")
+		}
+	}
+	r.parked, r.hparked = false, false
+}
+
+// restart: Run has returned (a node API error reached errC; why = "error") or is cancelled while healthy (why = "cancel"), and
+// the supervisor starts it again on the same Watcher value - same client, same poller flag, same process. `down` events are
+// appended to the governance contract's log while no incarnation runs.
+//
+//	wrestart <id> why= down=<n> fwd=<pubs that appeared since the last line> reqs=<first count request> exit= panic= en=
+func (r *watchRun) restart(why string, count0 string, down []*evSpec) {
+	g, n := r.g, r.g.node
+	r.halt()
+	late := drainPubs(r.msgC)
+	sort.Strings(late)
+	key := n.newEpoch()
+	// same Client object; only the request header that tells this incarnation's requests from the previous one's changes
+	r.w.client.impl.GetConfig().AddDefaultHeader("X-API-KEY", key)
+	n.mu.Lock()
+	for k := range n.errs {
+		delete(n.errs, k)
+	}
+	n.events = append(n.events, down...)
+	n.visible = len(n.events)
+	n.count = n.visible
+	n.growAfter = nil
+	n.pageCap = 1 << 30
+	n.mu.Unlock()
+	en := r.en()
+	rest := r.launch(count0)
+	g.emit("wrestart %s why=%s down=%d fwd=%s%s en=%s", r.id, why, len(down), fjoin(late, ","), rest, en)
 }
 
 func (r *watchRun) stop() {
@@ -597,8 +688,8 @@ func (r *watchRun) stop() {
 		r.parked = false
 	}
 	deadline := time.After(120 * time.Second)
-	hd, fd, ed := r.handleDone, r.fetchDone, r.heightDone
-	for hd != nil || fd != nil || ed != nil {
+	hd, fd, ed, od := r.handleDone, r.fetchDone, r.heightDone, r.reobsDone
+	for hd != nil || fd != nil || ed != nil || od != nil {
 		select {
 		case <-hd:
 			hd = nil
@@ -606,6 +697,8 @@ func (r *watchRun) stop() {
 			fd = nil
 		case <-ed:
 			ed = nil
+		case <-od:
+			od = nil
 		case <-r.errC:
 		case <-r.evA:
 		case <-r.hA:
@@ -974,6 +1067,236 @@ func (g *fgen) pollCase() {
 }
 
 // ---------------------------------------------------------------------------------------------
+// restart scenarios: the loops are stopped by a node API error (or cancelled while healthy) and started again on the same
+// Watcher value, the way the supervisor restarts Watcher.Run. Everything forwarded across all incarnations of one life is
+// judged against the fake node's event log: each fetched event at most once; what is delivered after the last restart and is
+// final is owed.
+
+// oldBlock: a canonical block whose timestamp lies hours behind every floor.
+func (r *watchRun) oldBlock() *fblock {
+	g, n := r.g, r.g.node
+	b := &fblock{bh: g.hash(), height: int32(100 + g.r.Intn(50)), ts: r.base - 3*60*fMinute - int64(g.r.Intn(86_400_000))}
+	r.blocks = append(r.blocks, b)
+	n.mu.Lock()
+	n.main[b.bh] = true
+	n.hdr[b.bh] = fnHeader{b.height, b.ts}
+	n.mu.Unlock()
+	return b
+}
+
+// mkEvent: a well-typed event carrying m in block b, next position of the governance contract's log.
+func (r *watchRun) mkEvent(b *fblock, m msgSpec) *evSpec {
+	e := &evSpec{id: r.nextId, bh: b.bh, tx: r.g.hash(), m: m}
+	r.nextId++
+	e.buildFields()
+	b.evs = append(b.evs, e)
+	return e
+}
+
+// quickEvents: k messages in old canonical blocks with consistency levels 0..3 - final at the first height tick at or above
+// block height + 3, whatever the network. Mostly token-bridge transfers; now and then a foreign sender in between.
+func (r *watchRun) quickEvents(k int) []*evSpec {
+	g := r.g
+	var evs []*evSpec
+	var b *fblock
+	for j := 0; j < k; j++ {
+		if b == nil || g.chance(50) {
+			b = r.oldBlock()
+		}
+		m := msgSpec{sender: r.c.bridge, tc: uint16(g.pick(0, 2, 4, 255)), seq: g.r.Uint64() >> uint(g.r.Intn(64)), nonce: g.r.Uint32(), cl: uint8(g.r.Intn(4))}
+		if g.chance(75) {
+			m.payload = append([]byte{1}, g.bytesN(g.pick(32, 132))...)
+		} else {
+			m.payload = append([]byte{byte(g.pick(3, 255))}, g.bytesN(g.r.Intn(40))...)
+		}
+		if g.chance(12) {
+			m.sender = g.bytesN(32)
+		}
+		evs = append(evs, r.mkEvent(b, m))
+	}
+	return evs
+}
+
+func (g *fgen) rstCase(shape int) {
+	viaFH := g.chance(50)
+	if shape == 4 {
+		viaFH = true
+	}
+	r := g.newWatchRun("rst", true, viaFH)
+	n := g.node
+	pre := r.newEvents(g.pick(0, 0, 2, 5), true, false) // history before the first start
+	n.mu.Lock()
+	n.events = append(n.events, pre...)
+	n.visible = len(n.events)
+	n.count = n.visible
+	n.mu.Unlock()
+	r.start("")
+	h := int32(1000)
+	restarts := 0
+	tickQuick := func(k int) {
+		if !r.exited {
+			r.fetchTickEvs(tickScript{newVisible: k, pageSize: g.pick(1, 2, 3, 100), pageErr: -1}, r.quickEvents(k))
+		}
+	}
+	height := func(drain bool) {
+		if !r.exited {
+			h++
+			r.heightTick(h, drain)
+		}
+	}
+	failCount := func() { // the count poll of the next tick fails (events may have been appended meanwhile: they stay unfetched)
+		if !r.exited {
+			k := g.pick(0, 0, 1, 2)
+			r.fetchTickEvs(tickScript{newVisible: k, pageSize: 100, pageErr: -1, countErr: true}, r.quickEvents(k))
+		}
+	}
+	restart := func(why, count0 string) {
+		restarts++
+		r.restart(why, count0, r.quickEvents(g.pick(0, 0, 0, 1, 3)))
+	}
+	switch shape {
+	case 0: // fetched, handed over and forwarded; the very next count poll fails
+		tickQuick(1 + g.r.Intn(3))
+		height(false)
+		failCount()
+		restart("error", "")
+	case 1: // fetched and handed over, not yet processed; the next count poll fails
+		tickQuick(1 + g.r.Intn(3))
+		failCount()
+		restart("error", "")
+	case 2: // a page request fails: right after the count poll, or between two pages
+		k := 2 + g.r.Intn(3)
+		if g.chance(50) {
+			tickQuick(1 + g.r.Intn(2))
+			height(false)
+		}
+		if !r.exited {
+			r.fetchTickEvs(tickScript{newVisible: k, pageSize: 1, pageErr: g.r.Intn(k)}, r.quickEvents(k))
+		}
+		restart("error", "")
+	case 3: // after a hand-over the event loop ends on a main-chain / header error
+		evs := r.quickEvents(1 + g.r.Intn(3))
+		if !r.exited {
+			r.fetchTickEvs(tickScript{newVisible: len(evs), pageSize: g.pick(1, 100), pageErr: -1}, evs)
+		}
+		n.mu.Lock()
+		if g.chance(50) {
+			n.errs["main:"+evs[g.r.Intn(len(evs))].bh] = true
+		} else {
+			n.errs["hdr:"+evs[g.r.Intn(len(evs))].bh] = true
+		}
+		n.mu.Unlock()
+		height(false)
+		restart("error", "")
+	case 4: // the height poller ends on a chain-info error
+		tickQuick(1 + g.r.Intn(3))
+		if g.chance(50) {
+			height(false)
+			tickQuick(1 + g.r.Intn(2))
+		}
+		n.mu.Lock()
+		n.errs["height"] = true
+		n.mu.Unlock()
+		height(false)
+		restart("error", "")
+	case 5: // a healthy Run is cancelled and started again (a sibling runnable of the same supervisor group failed)
+		tickQuick(1 + g.r.Intn(3))
+		if g.chance(70) {
+			height(false)
+		}
+		restart("cancel", "")
+	case 6: // the restarted watcher fails at once (the node is still down), and is started a third time
+		tickQuick(1 + g.r.Intn(3))
+		height(false)
+		failCount()
+		restart("error", "e")
+		restart("error", "")
+	case 7: // some messages forwarded, others still pending, when the count poll fails
+		r.fetchTick(g.randScript(true), true)
+		if !r.exited {
+			r.heightTick(r.interestingHeight(100), false)
+		}
+		tickQuick(1 + g.r.Intn(3))
+		height(false)
+		failCount()
+		restart("error", "")
+	default: // random walk with frequent faults; every exit is followed by a restart
+		steps := 6 + g.r.Intn(8)
+		cur := int32(100)
+		for s := 0; s < steps; s++ {
+			if r.exited {
+				if r.panicked || restarts >= 3 {
+					break
+				}
+				c0 := ""
+				if g.chance(10) {
+					c0 = "e"
+				}
+				restart("error", c0)
+				continue
+			}
+			switch k := g.r.Intn(100); {
+			case k < 35:
+				sc := g.randScript(false)
+				if g.chance(12) {
+					sc.countErr = true
+				}
+				if g.chance(12) {
+					sc.pageErr = g.r.Intn(3)
+				}
+				r.fetchTick(sc, true)
+			case k < 55:
+				tickQuick(g.r.Intn(3))
+			case k < 92:
+				r.perturb(g.pick(0, 0, 6, 12))
+				if g.chance(50) {
+					cur = r.interestingHeight(cur)
+					r.heightTick(cur, false)
+				} else {
+					height(false)
+				}
+			default:
+				restart("cancel", "")
+			}
+		}
+		if r.exited && !r.panicked {
+			restart("error", "")
+		}
+	}
+	// after the (last) restart: ticks and height ticks with every block canonical and no fault, then the drain
+	r.settle()
+	n.mu.Lock()
+	for _, b := range r.blocks {
+		n.main[b.bh] = true
+	}
+	n.mu.Unlock()
+	for round := 0; round < 1+g.r.Intn(2) && !r.exited; round++ {
+		if round == 0 || g.chance(60) {
+			tickQuick(g.r.Intn(3))
+		} else {
+			r.fetchTick(g.randScript(true), true)
+		}
+		height(false)
+	}
+	if !r.exited {
+		r.fetchTickEvs(tickScript{pageSize: 100, pageErr: -1}, nil)
+	}
+	for s := 0; s < 2 && !r.exited; s++ {
+		r.settle()
+		height(true)
+	}
+	r.stop()
+}
+
+func (g *fgen) genRestarts(rounds int) {
+	for i := 0; i < rounds; i++ {
+		for shape := 0; shape <= 8; shape++ {
+			g.rstCase(shape)
+		}
+	}
+}
+
+// ---------------------------------------------------------------------------------------------
 // re-observation requests
 
 func (g *fgen) reobsCase() {
@@ -1159,4 +1482,12 @@ func (g *fgen) genC08() {
 	for i := 0; i < nReobs; i++ {
 		g.reobsCase()
 	}
+	// "the polling path forwards each fetched event at most once" across restarts of Run on the same Watcher, and attestations
+	// after failed metadata lookups of the same token id (see c09_fetch_verif_test.go)
+	nRst, nMeta := 8, 1
+	if g.tier == "thorough" {
+		nRst, nMeta = 80, 8
+	}
+	g.genRestarts(nRst)
+	g.genMeta(nMeta)
 }
